@@ -322,3 +322,18 @@ def fresh_id_rule(ctx, rule, body, op, what):
     return s
 
 
+
+
+def option_field_tests(body, adt, field):
+    """`match` / `if let` on an Option-typed field adt.field: list of (switch_bb, some_target, none_target)"""
+    out = []
+    for bi in sorted(body.live):
+        t = body.blocks[bi]['term']
+        if t['k'] == 'switch' and t['d']['k'] != 'const':
+            for k2, b2, d in body.defs_of(t['d']['pl']['l']):
+                if k2 == 'stmt' and d['rv']['k'] == 'discr':
+                    fs, root, calls = T.access_path(body, {'k': 'copy', 'pl': d['rv']['pl']})
+                    if fs and fs[-1][1] == field and (fs[-1][0] == adt or fs[-1][0].endswith('::' + adt)):
+                        m = {v: tg for v, tg in t['ts']}
+                        out.append((bi, m.get(1, t['else']), m.get(0, t['else'])))
+    return out
